@@ -370,8 +370,10 @@ pub fn run(run: &mut Run, extra: &[String]) {
     });
     // call histories: h() of one code directly after h() of another one on the SAME thread must still give
     // the matrix it gives on a fresh thread (state surviving between calls, e.g. a cache keyed too coarsely)
-    let reference: Vec<SparseMatrix> = sp.iter().map(|s| { let c = s.code; std::thread::spawn(move || c.h()).join().expect("h()") }).collect();
-    let npairs = (sp.len() * sp.len()) as u64;
+    let reference: Vec<Option<SparseMatrix>> = sp.iter().map(|s| { let c = s.code; std::thread::spawn(move || guard(move || c.h()).ok()).join().ok().flatten() }).collect();
+    // (a construction that panics on a fresh thread is already reported by the per-code sub-check above)
+    let reference: Vec<SparseMatrix> = if reference.iter().all(|r| r.is_some()) { reference.into_iter().map(|r| r.unwrap()).collect() } else { Vec::new() };
+    let npairs = if reference.is_empty() { 0 } else { (sp.len() * sp.len()) as u64 };
     run.sub("call-histories-ordered-pairs", npairs, |l, idx, _rng| {
         let a = idx as usize / sp.len();
         let b = idx as usize % sp.len();
